@@ -76,23 +76,25 @@ def tla_set(sets):
 
 def neg_cfg(mode, inv, maxn):
     return ("SPECIFICATION SpecD\nCONSTANTS\n  MaxN = %d\n  Sizes = {0, 2}\n  FlavourSets = {{\"SHA1\"}}\n"
-            "  Mode = \"%s\"\n  Emit = FALSE\nINVARIANT %s\n" % (maxn, mode, inv))
+            "  Mode = \"%s\"\n  Runs = 1\n  RememberIndex = FALSE\n  Emit = FALSE\nINVARIANT %s\n" % (maxn, mode, inv))
 
 
 # ------------------------------------------------------------------ trace leg helpers
+# a trace is {"runs": [call, ...]}: consecutive calls of one process; call = {in, obs, events, out}
 
 def corrupt(t, how):
     """negative controls: executions the specification must NOT accept"""
     t = copy.deepcopy(t)
-    o = t["out"]
-    cur = t["in"]["hist"][-1]
+    last = t["runs"][-1]
+    o = last["out"]
+    cur = last["in"]["hist"][-1]
     if how == "outcome":
         if o["pc"] == "returned":
             o["pc"], o["ret"] = "raised", R.ABSENT
         else:
             o["pc"], o["ret"] = "returned", o["local"]
         return t
-    if how == "local" and (o["pc"] == "returned" or t["in"]["local0"] != cur):
+    if how == "local" and (o["pc"] == "returned" or last["in"]["local0"] != cur):
         o["local"] = R.GARBAGE if o["pc"] == "returned" else cur
         return t
     if how == "dotnew" and o["pc"] == "raised":
@@ -102,15 +104,33 @@ def corrupt(t, how):
         o["ret"] = R.GARBAGE
         return t
     if how == "faultless" and o["pc"] == "raised":
-        t["in"]["fault"] = {"k": "none", "i": 0}
+        last["in"]["fault"] = {"k": "none", "i": 0}
         return t
-    ev = t["events"]
-    if how == "swap" and t["obs"]["fs"]:
+    if how == "stale" and len(t["runs"]) == 2:
+        # the second call behaves as if the repository had not moved on: it leaves / returns what the
+        # first call published (what a cache shared between the calls would produce)
+        first = t["runs"][0]
+        old = first["in"]["hist"][-1]
+        if first["out"]["pc"] == "returned" and o["pc"] == "returned" and old != cur:
+            o["local"] = o["ret"] = old
+            last["events"] = []
+            last["obs"] = {"fs": False, "net": False}
+            return t
+        return None
+    if how == "first" and len(t["runs"]) == 2:
+        # a corrupted FIRST call must be noticed even when the second call is fine
+        fo = t["runs"][0]["out"]
+        if fo["pc"] == "returned":
+            fo["ret"] = R.GARBAGE
+            return t
+        return None
+    ev = last["events"]
+    if how == "swap" and last["obs"]["fs"]:
         for j in range(1, len(ev)):
             if ev[j]["a"] == "Rename" and ev[j - 1]["a"] in ("CloseNew", "WriteNew"):
                 ev[j], ev[j - 1] = ev[j - 1], ev[j]
                 return t
-    if how == "drop" and t["obs"]["fs"]:
+    if how == "drop" and last["obs"]["fs"]:
         for j in range(len(ev)):
             if ev[j]["a"] == "WriteNew":
                 del ev[j]
@@ -119,18 +139,18 @@ def corrupt(t, how):
 
 
 def slim(t):
-    return {k: t[k] for k in ("in", "obs", "events", "out")}
+    return {"runs": [{k: r[k] for k in ("in", "obs", "events", "out")} for r in t["runs"]]}
 
 
 def coarse(t):
-    return {"in": t["in"], "obs": {"fs": False, "net": False}, "events": [], "out": t["out"]}
+    return {"runs": [{"in": r["in"], "obs": {"fs": False, "net": False}, "events": [], "out": r["out"]} for r in t["runs"]]}
 
 
 def validate(ctx, traces, with_controls=True):
     """returns (violating ids, drift ids, progress info) -- ids are 1-based positions"""
     controls = []
     if with_controls:
-        for how in ("outcome", "local", "dotnew", "ret", "faultless", "swap", "drop"):
+        for how in ("outcome", "local", "dotnew", "ret", "faultless", "stale", "first", "swap", "drop"):
             for t in traces:
                 c = corrupt(slim(t), how)
                 if c:
@@ -155,14 +175,19 @@ def validate(ctx, traces, with_controls=True):
     return bad, drift, info
 
 
+def stuck_at(n):
+    return "call %d, after %d specification steps" % (n // 1000 + 1, n % 1000)
+
+
 # ------------------------------------------------------------------ the check
 
 def run(ctx):
     quick = ctx.tier == "quick"
     ctx.assumptions += [
         "closed model: histories of <= 4 versions (content ids, repeats allowed) x index depth x local position x one fault x 0-3 write calls; texts, ed scripts and index layout are sampled (seeded)",
+        "two consecutive calls in one process: <= 3 versions at the second call, the repository appends a version under the same URL / the client turns to another URL / to another repository, at most one of the two calls has a fault; the quick tier replays a seeded stratified sample of these behaviours, the thorough tier all of them",
         "D6: an index that parses but has a wrong column count or names unknown patches is unspecified (not generated); D7: no line that is exactly '.'; texts are newline-terminated lines without carriage returns; local files are UTF-8 text",
-        "a write fault injected through the open()/os.rename wrappers counts only when the wrapper fired; RLIMIT_FSIZE faults are implementation-agnostic",
+        "a write fault injected through the open()/os.rename wrappers counts only when the wrapper fired; RLIMIT_FSIZE faults are implementation-agnostic (used for single calls and for the last call of a sequence: the forked child does not carry module state over)",
         "trusted: TLC, gzip/hashlib/difflib (and diff -e) as repository builders, the projection of file bytes to content ids",
     ]
     flavs = flavour_sets(ctx)
@@ -175,20 +200,51 @@ def run(ctx):
         pool.join()
 
 
+def _cases(r):
+    uniq = {}
+    for c in r.printed.get("CASE", []):
+        uniq.setdefault(json.dumps(c, sort_keys=True), c)
+    cases = list(uniq.values())
+    cases.sort(key=lambda c: json.dumps([c.get("prev", {}).get("in"), c["in"]], sort_keys=True) + c["pc"] + str(len(c["path"]))
+               + str(len(c.get("prev", {}).get("path", []))))
+    return cases
+
+
+def _sample2(rng, cases2, budget):
+    """seeded stratified sample of the two-call behaviours (quick tier)"""
+    groups = {}
+    for i, c in enumerate(cases2):
+        p = c["prev"]
+        key = (c["in"]["rep"], p["in"]["fault"]["k"], c["in"]["fault"]["k"], p["pc"], c["pc"],
+               p["in"]["local0"] == R.ABSENT, any(x["a"] == "FullDownload" for x in c["path"]))
+        groups.setdefault(key, []).append(i)
+    keys = sorted(groups, key=repr)
+    for k in keys:
+        rng.shuffle(groups[k])
+    picked = []
+    depth = 0
+    while len(picked) < budget:
+        added = False
+        for k in keys:
+            if depth < len(groups[k]) and len(picked) < budget:
+                picked.append(groups[k][depth])
+                added = True
+        if not added:
+            break
+        depth += 1
+    return sorted(picked), len(keys)
+
+
 def _run(ctx, quick, flavs, pool):
     phase = ctx.extra.setdefault("phase_wall_s", {})
     t0 = time.time()
-    # 1. emission: every terminal behaviour of the closed model, with TLC's terminal state
+    # 1. emission: every terminal behaviour of the closed models, with TLC's terminal state
     emit_cfg = _cfg("MC_UpdateFile_emit_quick.cfg" if quick else "MC_UpdateFile_emit.cfg", FlavourSets=tla_set(flavs))
     r_emit = ctx.tlc_must_hold("UpdateFile", emit_cfg, workers=1, want_tags={"CASE"})
-    uniq = {}
-    for c in r_emit.printed.get("CASE", []):
-        uniq.setdefault(json.dumps(c, sort_keys=True), c)
-    cases = list(uniq.values())
-    phase["emission"] = round(time.time() - t0, 1)
+    cases = _cases(r_emit)
     if not cases:
         raise core.MachineryError("UpdateFile emitted no CASE lines")
-    cases.sort(key=lambda c: json.dumps(c["in"], sort_keys=True) + c["pc"] + str(len(c["path"])))
+    phase["emission"] = round(time.time() - t0, 1)
     nvar = 1 if quick else (2 if len(cases) < 20000 else 1)
     tasks = []
     for idx, c in enumerate(cases):
@@ -205,14 +261,40 @@ def _run(ctx, quick, flavs, pool):
     tchunks = [list(range(i, min(ntr, i + 25))) for i in range(0, ntr, 25)]
     trace_async = pool.map_async(R.record_chunk, [(ctx.work, ctx.seed, ch, topts) for ch in tchunks], chunksize=1)
 
+    # 1b. two consecutive calls in one process (the repository moves on in between)
+    t0 = time.time()
+    r_runs = ctx.tlc_must_hold("UpdateFile", _cfg("MC_UpdateFile_runs.cfg", FlavourSets=tla_set(flavs[:1])),
+                               workers=1, want_tags={"CASE"})
+    cases2 = _cases(r_runs)
+    if not cases2 or any(c.get("prev", {}).get("pc", "none") == "none" for c in cases2):
+        raise core.MachineryError("UpdateFile (Runs = 2) emitted no / malformed two-call CASE lines")
+    phase["emission_two_calls"] = round(time.time() - t0, 1)
+    if quick:
+        picked, ngroups = _sample2(ctx.rng, cases2, 900)
+    else:
+        picked, ngroups = list(range(len(cases2))), None
+    tasks2 = []
+    for j, i in enumerate(picked):
+        tasks2.append(("two-%d" % i, cases2[i], "canonical" if (quick and j % 3 == 0) else "random0"))
+        if not quick:
+            tasks2.append(("two-%d" % i, cases2[i], "canonical"))
+    chunks2 = [tasks2[i:i + 30] for i in range(0, len(tasks2), 30)]
+    replay2_async = pool.map_async(R.replay_chunk, [(ctx.work, ctx.seed, ch, opts) for ch in chunks2], chunksize=1)
+
     # 2. design level (independent of /repo), while the pool replays; the TLC processes run side by side
     def neg(mode, inv):
-        r = ctx.tlc("UpdateFile", neg_cfg(mode, inv, 1 if quick else 2), workers=1, count=False)
+        if mode == "RememberIndex":
+            cfg = _cfg("MC_UpdateFile_runs.cfg", RememberIndex="TRUE", Emit="FALSE")
+            cfg = cfg[:cfg.index("INVARIANTS")] + "INVARIANT %s\n" % inv
+        else:
+            cfg = neg_cfg(mode, inv, 1 if quick else 2)
+        r = ctx.tlc("UpdateFile", cfg, workers=1, count=False)
         if r.violated != inv:
-            raise core.MachineryError("negative control Mode=%s: expected %s to fail, TLC says %r" % (mode, inv, r.violated))
+            raise core.MachineryError("negative control %s: expected %s to fail, TLC says %r" % (mode, inv, r.violated))
         return inv
     from concurrent.futures import ThreadPoolExecutor
-    controls = NEG_CONTROLS[:2] if quick else NEG_CONTROLS      # quick: two of the four
+    # quick: two of the five negative controls, thorough: all
+    controls = ([NEG_CONTROLS[0]] if quick else NEG_CONTROLS) + [("RememberIndex", "Converges")]
     t1 = time.time()
     with ThreadPoolExecutor(3 + len(controls)) as ex:
         f_main = ex.submit(ctx.tlc_must_hold, "UpdateFile", "MC_UpdateFile_quick.cfg" if quick else "MC_UpdateFile.cfg",
@@ -230,14 +312,18 @@ def _run(ctx, quick, flavs, pool):
                                             "states": r_main.distinct, "depth": r_main.depth},
                           "termination_states": r_live.distinct,
                           "emission": {"MaxN": 2 if quick else 3, "Sizes": [0, 2] if quick else [0, 1, 3],
-                                       "FlavourSets": flavs, "states": r_emit.distinct, "behaviours": len(cases)}}
+                                       "FlavourSets": flavs, "states": r_emit.distinct, "behaviours": len(cases)},
+                          "two_calls": {"MaxN": 2, "Sizes": [1], "FlavourSets": flavs[:1], "states": r_runs.distinct,
+                                        "behaviours": len(cases2), "replayed": len(picked), "strata": ngroups}}
     ctx.extra["spec_negative_controls_failed_as_required"] = neg
 
     # 3. spec -> code: collect the replays
     t2 = time.time()
     results = [x for ch in replay_async.get() for x in ch]
+    results2 = [x for ch in replay2_async.get() for x in ch]
     phase["wait_for_replays_after_design"] = round(time.time() - t2, 1)
     results.sort(key=lambda x: (x["idx"], x["variant"]))
+    results2.sort(key=lambda x: (int(x["idx"][4:]), x["variant"]))
     per_action, per_fault, outcomes, excs, status_n = {}, {}, {}, {}, {}
     for c in cases:
         for p in c["path"]:
@@ -247,12 +333,13 @@ def _run(ctx, quick, flavs, pool):
         outcomes[c["pc"]] = outcomes.get(c["pc"], 0) + 1
     skipped = 0
     seen_drift = set()
-    for x in results:
-        c = cases[x["idx"]]
+    for x in results + results2:
+        two = isinstance(x["idx"], str)
+        c = cases2[int(x["idx"][4:])] if two else cases[x["idx"]]
         ctx.case_seen(("behaviour", x["idx"], x["variant"]), True)
         status_n[x["status"]] = status_n.get(x["status"], 0) + 1
-        if x["exc"] != "none":
-            excs[x["exc"]] = excs.get(x["exc"], 0) + 1
+        for e in x["excs"]:
+            excs[e] = excs.get(e, 0) + 1
         if x["status"] == "violation":
             if len(ctx.violations) < 5:
                 ctx.violation({"kind": "behaviour", "case": c, "scenario": x["scenario"], "variant": x["variant"]}, x["msg"])
@@ -271,16 +358,25 @@ def _run(ctx, quick, flavs, pool):
             if cases[x["idx"]]["pc"] == want and cases[x["idx"]]["in"]["fault"]["k"] != "none" and x["variant"] != "canonical":
                 ctx.sample("behaviour " + x["summary"])
                 break
-    ctx.extra["behaviours_replayed"] = len(results)
+    for x in results2:
+        c = cases2[int(x["idx"][4:])]
+        if c["in"]["rep"] == "same" and c["in"]["fault"]["k"] != "none" and x["variant"] != "canonical":
+            ctx.sample("two calls: " + x["summary"])
+            break
+    ctx.extra["behaviours_replayed"] = len(results) + len(results2)
+    ctx.extra["two_call_behaviours_replayed"] = len(results2)
+    ctx.extra["two_call_behaviours_by_kind"] = {k: sum(1 for x in results2 if cases2[int(x["idx"][4:])]["in"]["rep"] == k)
+                                                for k in ("same", "mirror", "fresh")}
     ctx.extra["replay_status"] = status_n
     ctx.extra["skipped_due_to_drift"] = skipped
     ctx.extra["model_steps_per_action"] = per_action
     ctx.extra["behaviours_per_fault"] = per_fault
     ctx.extra["model_outcomes"] = outcomes
     ctx.extra["observed_exception_types"] = excs
-    if skipped > 0.05 * max(1, len(results)) and not ctx.violations:
+    nres = len(results) + len(results2)
+    if skipped > 0.05 * max(1, nres) and not ctx.violations:
         raise core.MachineryError("%d of %d replays skipped: injected write faults do not reach the code (wrappers out of date)"
-                                  % (skipped, len(results)))
+                                  % (skipped, nres))
 
     # 4. code -> spec: recorded executions validated by TLC
     traces = [t for ch in trace_async.get() for t in ch]
@@ -291,62 +387,64 @@ def _run(ctx, quick, flavs, pool):
     t3 = time.time()
     bad, drift, info = validate(ctx, traces)
     phase["trace_validation"] = round(time.time() - t3, 1)
-    ctx.traces += len(results) + len(traces)
+    ctx.traces += nres + len(traces)
     for i in range(len(traces)):
         ctx.case_seen(("trace", idxs[i]), True)
+
+    def brief(t):
+        return [{"in": r["in"], "events": [(e["a"], e["i"]) for e in r["events"]][:12], "out": r["out"]} for r in t["runs"]]
     for t in traces:
-        if t["events"] and t["in"]["fault"]["k"] != "none":
-            ctx.sample("recorded trace: " + json.dumps({"in": t["in"], "events": [(e["a"], e["i"]) for e in t["events"]][:14],
-                                                        "out": t["out"]}, separators=(",", ":")))
+        if len(t["runs"]) == 2 and t["runs"][0]["events"] and any(r["in"]["fault"]["k"] != "none" for r in t["runs"]):
+            ctx.sample("recorded trace (two calls): " + json.dumps(brief(t), separators=(",", ":")))
             break
     for i in drift[:3]:
         t = traces[i - 1]
-        ctx.drift("trace %d: step order not explained by the model (verdict observables are): events %r"
-                  % (idxs[i - 1], [(e["a"], e["i"], e["loc"]) for e in t["events"]][:20]))
-    for t in traces:
-        if t.get("new_after_success"):
-            ctx.drift("local + '.new' left behind after a successful update")
-            break
-    for t in traces:
-        if t.get("tmp_left"):
-            ctx.drift("download temp file left behind")
-            break
+        ctx.drift("trace %d: step order not explained by the model (verdict observables are): %s"
+                  % (idxs[i - 1], json.dumps(brief(t), separators=(",", ":"))[:1500]))
+    allruns = [r for t in traces for r in t["runs"]]
+    if any(r.get("new_after_success") for r in allruns):
+        ctx.drift("local + '.new' left behind after a successful update")
+    if any(r.get("tmp_left") for r in allruns):
+        ctx.drift("download temp file left behind")
     for i in bad:
         t = traces[i - 1]
-        if t["inject"] == "wrap" and t["fired"] and t["out"]["pc"] == "raised" and t["same"] and t["out"]["dotNew"] == "absent":
+        if all(r["inject"] != "wrap" or not r["fired"] or (r["out"]["pc"] == "raised" and r["same"] and r["out"]["dotNew"] == "absent")
+               for r in t["runs"]) and any(r["inject"] == "wrap" and r["fired"] for r in t["runs"]) and len(t["runs"]) == 1:
             ctx.drift("trace %d: injected fault fired where the model does not write; error raised with the local file intact" % idxs[i - 1])
             continue
         if len(ctx.violations) >= 5:
             break
         sc = R.record_one(ctx.work, ctx.seed, idxs[i - 1], {"flavour_sets": flavs, "diff_e": not quick})[1]
         ctx.violation({"kind": "trace", "scenario": sc, "trace": slim(t)},
-                      "recorded execution not explained by UpdateFile (specification stuck after %d steps): input %s, observed outcome %s"
-                      % (info.get(i, 0), json.dumps(t["in"], separators=(",", ":")), json.dumps(t["out"], separators=(",", ":"))))
+                      "recorded execution not explained by UpdateFile (specification stuck at %s): %s"
+                      % (stuck_at(info.get(i, 0)),
+                         json.dumps([{"in": r["in"], "out": r["out"]} for r in t["runs"]], separators=(",", ":"))))
     ctx.extra["traces_recorded"] = len(traces)
+    ctx.extra["traces_with_two_calls"] = sum(1 for t in traces if len(t["runs"]) == 2)
     ctx.extra["traces_rejected"] = len(bad)
     ctx.extra["traces_with_step_drift"] = len(drift)
     ev_n = {}
-    for t in traces:
-        for e in t["events"]:
+    for r in allruns:
+        for e in r["events"]:
             ev_n[e["a"]] = ev_n.get(e["a"], 0) + 1
     ctx.extra["observed_steps_per_action_in_traces"] = ev_n
-    ctx.extra["traces_by_outcome"] = {o: sum(1 for t in traces if t["out"]["pc"] == o) for o in ("returned", "raised")}
-    ctx.extra["traces_by_injection"] = {m: sum(1 for t in traces if t["inject"] == m) for m in ("none", "wrap", "rlimit")}
+    ctx.extra["calls_by_outcome"] = {o: sum(1 for r in allruns if r["out"]["pc"] == o) for o in ("returned", "raised")}
+    ctx.extra["calls_by_injection"] = {m: sum(1 for r in allruns if r["inject"] == m) for m in ("none", "wrap", "rlimit")}
 
 
 def replay(ctx, case):
     flavour_sets(ctx)
-    sc = case["scenario"]
+    msc = case["scenario"]
     if case["kind"] == "behaviour":
-        res = R.run_scenario(ctx.work, sc, case["case"], "replay")
+        res = R.judge_multi(msc, R.split_case(case["case"]), R.run_multi(ctx.work, msc))
         if res["status"] == "violation":
             return res["msg"]
         return None
     if case["kind"] == "trace":
-        t = R.trace_of(ctx.work, sc, "replay")
+        t = R.trace_multi(ctx.work, msc)
         bad, _, info = validate(ctx, [t], with_controls=False)
         if bad:
-            return ("recorded execution still not explained by UpdateFile (stuck after %d steps): outcome %s"
-                    % (info.get(1, 0), json.dumps(t["out"])))
+            return ("recorded execution still not explained by UpdateFile (stuck at %s): %s"
+                    % (stuck_at(info.get(1, 0)), json.dumps([r["out"] for r in t["runs"]])))
         return None
     return "unknown case kind"
